@@ -96,6 +96,10 @@ func MakePlan() Plan {
 					}
 					plan.Compared = append(plan.Compared, Pos{Root: "extend", Path: "[" + e.ExtendType + "].Config." + f.Tag, Kind: KindExtTLS,
 						ExtendType: e.ExtendType, FieldTag: f.Tag, Shape: f.Shape, Consumer: b.Type + "." + f.Name})
+					// the same site with every key spelled in upper case: encoding/json, which the
+					// consumer uses, matches field names case-insensitively, so this configures the same TLS context
+					plan.Compared = append(plan.Compared, Pos{Root: "extend", Path: "[" + e.ExtendType + "].Config." + strings.ToUpper(f.Tag), Kind: KindExtTLS,
+						ExtendType: e.ExtendType, FieldTag: f.Tag, Shape: f.Shape, Consumer: b.Type + "." + f.Name, Upper: true})
 				}
 			}
 		}
@@ -155,20 +159,19 @@ const (
 	SetAll          = "ALL"
 )
 
-// Depth is the history depth per position set and tier: quick 2 (1 for the two
-// sets that include the untyped sites), thorough 3 for ALL-TLS and 2 elsewhere.
+// Depth is the history depth per position set and tier. Quick: 2 for every
+// single position (and the unmarshalled-listener form), 1 for the combined
+// sets. Thorough: 3 for single positions, 2 for the combined sets.
 func Depth(set PosSet, thorough bool) int {
 	switch set.Name {
-	case SetAllTLS:
-		if thorough {
-			return 3
-		}
-		return 2
-	case SetAll, SetAllUntyped:
+	case SetAllTLS, SetAll, SetAllUntyped:
 		if thorough {
 			return 2
 		}
 		return 1
+	}
+	if thorough {
+		return 3
 	}
 	return 2
 }
